@@ -1,8 +1,8 @@
 (* Property C17: bitwise ops are infinite two's complement; the five roundings are exact
    ONLY statements: each theorem is closed by `exact` of a lemma proved elsewhere and followed by Print Assumptions. *)
-From Coq Require Import ZArith NArith List Bool Lia Permutation.
+From Coq Require Import ZArith NArith List Bool Lia Permutation SpecFloat.
 Import ListNotations.
-Require Import Base Strings Builtins Interp Machine Spec RunG Codec Bits LinkBits.
+Require Import Base Strings Builtins Interp Machine Spec RunG Codec Bits Float RoundProofs LinkBits.
 Open Scope Z_scope.
 Theorem and_bits x y i :
   Z.testbit (bw 0 x y) i = Z.testbit x i && Z.testbit y i.
@@ -59,6 +59,58 @@ Theorem bitwise_module_not (rec : list positive -> heap -> world -> task -> out)
   runG rec value ip h w (module_body [5; m_bitwise; 4] sp [VInt x]) = DoneG h w (inl (VInt (Z.lnot x))) 0.
 Proof. exact (Bits.bitwise_module_not rec x sp ip h w). Qed.
 Print Assumptions bitwise_module_not.
+
+(* the five roundings of the model return the unique integer their direction defines, for every finite double (mantissa of any size), stated in integer arithmetic with k = 2^(-e) *)
+Theorem rounding_floor s m e n :
+  e < 0 -> rounding 1 (S754_finite s m e) = Some n -> n * 2 ^ (- e) <= sgn_m s m < (n + 1) * 2 ^ (- e).
+Proof. exact (RoundProofs.rounding_floor s m e n). Qed.
+Print Assumptions rounding_floor.
+
+Theorem rounding_ceil s m e n :
+  e < 0 -> rounding 3 (S754_finite s m e) = Some n -> (n - 1) * 2 ^ (- e) < sgn_m s m <= n * 2 ^ (- e).
+Proof. exact (RoundProofs.rounding_ceil s m e n). Qed.
+Print Assumptions rounding_ceil.
+
+Theorem rounding_trunc s m e n :
+  e < 0 -> rounding 0 (S754_finite s m e) = Some n ->
+  Z.abs n * 2 ^ (- e) <= Zpos m < (Z.abs n + 1) * 2 ^ (- e) /\ (if s then n <= 0 else 0 <= n).
+Proof. exact (RoundProofs.rounding_trunc s m e n). Qed.
+Print Assumptions rounding_trunc.
+
+Theorem rounding_away s m e n :
+  e < 0 -> rounding 4 (S754_finite s m e) = Some n ->
+  (Z.abs n - 1) * 2 ^ (- e) < Zpos m <= Z.abs n * 2 ^ (- e) /\ (if s then n < 0 else 0 < n).
+Proof. exact (RoundProofs.rounding_away s m e n). Qed.
+Print Assumptions rounding_away.
+
+(* to nearest, ties to even *)
+Theorem rounding_nearest s m e n :
+  e < 0 -> rounding 2 (S754_finite s m e) = Some n ->
+  Z.abs (2 * sgn_m s m - 2 * n * 2 ^ (- e)) <= 2 ^ (- e) /\ (Z.abs (2 * sgn_m s m - 2 * n * 2 ^ (- e)) = 2 ^ (- e) -> Z.even n = true).
+Proof. exact (RoundProofs.rounding_nearest s m e n). Qed.
+Print Assumptions rounding_nearest.
+
+(* integral doubles (in particular everything beyond 2^53) are returned unchanged *)
+Theorem rounding_integral k s m e :
+  0 <= e -> rounding k (S754_finite s m e) = Some (sgn_m s m * 2 ^ e).
+Proof. exact (RoundProofs.rounding_integral k s m e). Qed.
+Print Assumptions rounding_integral.
+
+(* inf / nan have no rounding *)
+Theorem rounding_defined k f :
+  rounding k f = None <-> (f = S754_nan \/ exists s, f = S754_infinity s).
+Proof. exact (RoundProofs.rounding_defined k f). Qed.
+Print Assumptions rounding_defined.
+
+Theorem floor_unique m e n :
+  0 <= m -> e < 0 -> (n * 2 ^ (- e) <= m < (n + 1) * 2 ^ (- e) <-> n = mag_floor m e).
+Proof. exact (RoundProofs.floor_unique m e n). Qed.
+Print Assumptions floor_unique.
+
+Theorem ceil_unique m e n :
+  e < 0 -> ((n - 1) * 2 ^ (- e) < m <= n * 2 ^ (- e) <-> n = mag_ceil m e).
+Proof. exact (RoundProofs.ceil_unique m e n). Qed.
+Print Assumptions ceil_unique.
 
 (* about _shift_left REGENERATED from bitwise.py *)
 Theorem shift_spec a n :
